@@ -74,6 +74,11 @@ def run(ctx):
       data = fits.make_data(rng, d=int(rng.integers(2, 6)))
       d = data['d']
       prior = ['identity', 'covariance', 'random', 'array'][i % 4]
+      if prior == 'covariance' and i % 8 == 1:
+        # features recorded in a very small unit: with the covariance prior the whole solver input is of the order
+        # of units^2 (the problem is the same one up to that factor)
+        data = dict(data, X=data['X'] * 2.0 ** -18)
+        ctx.hist('units', '2^-18 (covariance prior)')
       kw = fits.base_kwargs(name, data)
       kw.update(prior=prior if prior != 'array' else fits.spd_array(rng, d), sparsity_param=float(rng.choice([0.01, 0.1, 0.5])),
                 random_state=int(rng.integers(0, 100)))
@@ -142,7 +147,12 @@ def run(ctx):
     if cap.get('not_converged'):
       worst = 0.0      # reported through the KKT certificate with its own site
     # the solver stops at a dual gap of 1e-4: a first-order decrease of (KKT residual tolerance) x (step) is within its accuracy
-    if worst < -(2 * 5e-3 * float(np.abs(S).max()) * 1e-4 + 1e-9):
+    thr = 2 * 5e-3 * float(np.abs(S).max()) * 1e-4 + 1e-9
+    if float(np.abs(S).max()) < 1e-6:
+      # tiny-unit lane: the first-order bound above vanishes with |S|, but the solver's stopping rule is an ABSOLUTE dual gap
+      # of 1e-4 in objective units, so a decrease below that is within the solver tolerance the property allows
+      thr = max(thr, 1.5e-4)
+    if worst < -thr:
       ctx.fail_input('no_descent_direction', 'the documented objective decreases along a coordinate direction at the returned M', inp,
                      observed=worst)
     ctx.seen((name, repr(sorted(opt.items())), i), bool(np.any(np.abs(M - np.diag(np.diag(M))) > 0)))
